@@ -25,7 +25,10 @@ fn prop_by_id(id: &str) -> Option<Box<dyn Prop>> {
     match id {
         "C01" => Some(Box::new(props::c01::C01)),
         "C19" => Some(Box::new(props::c19::C19)),
+        "C03" => Some(Box::new(props::c03::C03)),
+        "C04" => Some(Box::new(props::c03::C04)),
         "C09" => Some(Box::new(props::c09::C09)),
+        "C10" => Some(Box::new(props::c10::C10)),
         "C15" => Some(Box::new(props::c15::C15)),
         "C17" => Some(Box::new(props::c17::C17)),
         "C18" => Some(Box::new(props::c18::C18)),
